@@ -6,7 +6,12 @@ use crate::input::{Node, Syn, LK};
 use crate::model::{has_std_default, taggable, value_for_absent, variant_name, field_name, World};
 use crate::spec::*;
 
-const BASES: &[&str] = &["alpha", "beta", "gamma", "max_len", "is_on", "sit_amet", "lorem", "ipsum", "dolor_sit", "r#type"];
+const BASES: &[&str] = &[
+    "alpha", "beta", "gamma", "max_len", "is_on", "sit_amet", "lorem", "ipsum", "dolor_sit", "r#type",
+    // identifier shapes on which the case rules differ from the identity in less obvious ways: leading capitals,
+    // runs of capitals, mixed case, digits inside, leading / trailing / doubled underscores
+    "Id", "URL", "Level", "MaxLen", "maxLen", "HTTPServer", "Max_Len", "v2_name", "_lead", "trail_", "a__b", "x",
+];
 const RULES: &[&str] = &["lowercase", "PascalCase", "camelCase", "snake_case", "SCREAMING_SNAKE_CASE", "kebab-case"];
 
 pub struct BatchCfg {
@@ -175,6 +180,7 @@ pub fn gen_struct(d: &mut D, id: usize, tr: Trait, structs: &[usize], enums: &[u
 /// A required field whose effective name cannot be written as a path (kebab-case of a multi-word
 /// name) could never be supplied: give it an explicit rename.
 fn fix_inexpressible(fields: &mut [Field], c: &Container, id: usize) {
+    let mut seen: Vec<String> = vec![];
     for (j, f) in fields.iter_mut().enumerate() {
         if f.skip || f.flatten {
             continue;
@@ -182,6 +188,12 @@ fn fix_inexpressible(fields: &mut [Field], c: &Container, id: usize) {
         if !expressible(&field_name(f, c)) && f.default == Dflt::None && !f.multiple {
             f.rename = Some(format!("rx{}_{}", id, j));
         }
+        // two fields whose effective names coincide under the case rule (`Max_Len` and `maxLen` in camelCase) are the
+        // user's mistake, not an input darling defines: keep effective names distinct inside one receiver
+        if seen.contains(&field_name(f, c)) {
+            f.rename = Some(format!("ru{}_{}", id, j));
+        }
+        seen.push(field_name(f, c));
     }
 }
 
@@ -192,7 +204,10 @@ pub fn gen_enum(d: &mut D, id: usize, structs: &[usize], enums: &[usize]) -> Spe
     }
     c.allow_unknown = d.ratio(1, 5);
     let n = d.range(1, 5);
-    let vnames = ["UnitOne", "Beta", "GammaRay", "X", "DeltaFour", "Alpha"];
+    // (variant names of unusual shapes too: a run of capitals, a digit inside, snake-like)
+    let vpool = ["UnitOne", "Beta", "GammaRay", "X", "DeltaFour", "Alpha", "HTTPServer", "A1b", "snake_like", "Io"];
+    let off = d.below(vpool.len());
+    let vnames: Vec<&str> = (0..6).map(|k| vpool[(off + k) % vpool.len()]).collect();
     let mut vs = vec![];
     let mut have_word = false;
     for i in 0..n {
